@@ -527,6 +527,16 @@ def fuse_iterators(F):
             stages, dead = [], []
             src = t['args'][0]
             ok = True
+            def _through_ref(op_):
+                # `any` / `all` / `find_map` take `&mut self`: the receiver is `&mut <adaptor value>`
+                if op_['k'] == 'const' or op_['p']['proj']:
+                    return op_
+                ds_ = [st for blk in b.blocks for st in blk['stmts'] if st['dst']['l'] == op_['p']['l']]
+                cs_ = [1 for blk in b.blocks if blk['term']['k'] == 'call' and blk['term'].get('dst', {}).get('l') == op_['p']['l']]
+                if len(ds_) == 1 and not cs_ and not ds_[0]['dst']['proj'] and ds_[0]['rv']['k'] == 'ref' and not ds_[0]['rv']['p']['proj']:
+                    return {'k': 'move', 'p': {'l': ds_[0]['rv']['p']['l'], 'proj': []}}
+                return op_
+            src = _through_ref(src)
             while True:
                 db = _def_call_block(b, src)
                 if db is None:
